@@ -175,42 +175,94 @@ def install():
     return pg.parser
 
 
+# The self-test checks the interpreter itself (trusted base) against a frozen copy of the grammar and its own
+# tiny semantic actions, so that a change to the repository's grammar or semantics is reported by the property
+# checks (C11, C01) as a violation and never as a harness failure.
+_FROZEN_GRAMMAR = """start = union $;
+
+union =
+    | l:union o:':' r:isect
+    | o:isect;
+
+isect =
+    | l:isect o:'*' r:operand
+    | o:operand;
+
+operand =
+    | o:cell
+    | o:surface
+    | l:'_(' o:compl r:')'
+    | l:'('  o:union r:')'
+    | l:'^(' o:complcell r:')';
+
+compl = union;
+
+surface = /[-+]{0,1}\\d+(?:\\.\\d)?/;
+
+cell = /_\\d+/;
+
+complcell =  /\\d+/;
+"""
+
+
+class _TestSemantics:
+    def surface(self, ast):
+        return ('S', ast)
+
+    def complcell(self, ast):
+        return ('C', ast)
+
+    def operand(self, ast):
+        if ast.l == '_(':
+            return ('not', ast.o)
+        if ast.l == '^(':
+            return ('cell', ast.o)
+        return ast.o
+
+    def isect(self, ast):
+        return ('*', ast.l, ast.r) if ast.o == '*' else ast.o
+
+    def union(self, ast):
+        return (':', ast.l, ast.r) if ast.o == ':' else ast.o
+
+
 _SELFTEST = [
-    # (text, expected repr of get_ast)
-    ('1', "Surface(1, None)"),
-    ('-1 2', "('*', Surface(-1, None), Surface(2, None))"),
-    ('1:2', "(':', Surface(1, None), Surface(2, None))"),
-    ('1 2:3', "(':', ('*', Surface(1, None), Surface(2, None)), Surface(3, None))"),
-    ('1:2 3', "(':', Surface(1, None), ('*', Surface(2, None), Surface(3, None)))"),
-    ('1 2 3', "('*', ('*', Surface(1, None), Surface(2, None)), Surface(3, None))"),
-    ('1:2:3', "(':', (':', Surface(1, None), Surface(2, None)), Surface(3, None))"),
-    ('(1:2) 3', "('*', (':', Surface(1, None), Surface(2, None)), Surface(3, None))"),
-    ('(1:2)(3:4)', "('*', (':', Surface(1, None), Surface(2, None)), (':', Surface(3, None), Surface(4, None)))"),
-    ('#(1 2)', "(':', Surface(-1, None), Surface(-2, None))"),
-    ('#5', "('^', '5')"),
-    ('1 #5', "('*', Surface(1, None), ('^', '5'))"),
-    ('-4.2 1', "('*', Surface(-4, 2), Surface(1, None))"),
-    ('+3', "Surface(3, None)"),
+    ('1', ('S', '1')),
+    ('-1*2', ('*', ('S', '-1'), ('S', '2'))),
+    ('1:2', (':', ('S', '1'), ('S', '2'))),
+    ('1*2:3', (':', ('*', ('S', '1'), ('S', '2')), ('S', '3'))),
+    ('1:2*3', (':', ('S', '1'), ('*', ('S', '2'), ('S', '3')))),
+    ('1*2*3', ('*', ('*', ('S', '1'), ('S', '2')), ('S', '3'))),
+    ('1:2:3', (':', (':', ('S', '1'), ('S', '2')), ('S', '3'))),
+    ('(1:2)*3', ('*', (':', ('S', '1'), ('S', '2')), ('S', '3'))),
+    ('(1:2)*(3:4)', ('*', (':', ('S', '1'), ('S', '2')), (':', ('S', '3'), ('S', '4')))),
+    ('_(1*2)', ('not', ('*', ('S', '1'), ('S', '2')))),
+    ('^(5)', ('cell', ('C', '5'))),
+    ('1*^(5)', ('*', ('S', '1'), ('cell', ('C', '5')))),
+    ('-4.2*1', ('*', ('S', '-4.2'), ('S', '1'))),
+    ('+3', ('S', '+3')),
+    (' 1 *  2 ', ('*', ('S', '1'), ('S', '2'))),
 ]
 
 
 def selftest():
-    """Pin the shim against a table written from MCNP's expression rules;
-    raises RuntimeError on any difference (harness failure, exit 2)."""
+    """Pin the interpreter against a table (frozen grammar, own semantic actions); raises RuntimeError on any
+    difference (harness failure, exit 2).  Also checks that the repository's grammar file is one the
+    interpreter can load."""
+    p = ShimParser(_FROZEN_GRAMMAR)
+    sem = _TestSemantics()
+    for text, want in _SELFTEST:
+        got = p.parse(text, semantics=sem)
+        if got != want:
+            raise RuntimeError('PEG shim self-test failed on %r: got %r, want %r' % (text, got, want))
+    import tatsu.exceptions
+    for bad in ('1:', '(1', '1)', '', '1**2', '1 2'):
+        try:
+            p.parse(bad, semantics=sem)
+        except tatsu.exceptions.ParseException:
+            continue
+        raise RuntimeError('PEG shim accepted malformed expression %r' % bad)
     import MIP.geom.parsegeom as pg
     if not isinstance(pg.parser, ShimParser):
         install()
-    for text, want in _SELFTEST:
-        got = repr(pg.get_ast(text))
-        if got != want:
-            raise RuntimeError('PEG shim self-test failed on %r: got %s, want %s' % (text, got, want))
-    import tatsu.exceptions
-    for bad in ('1 :', '(1', '1)', ''):
-        try:
-            pg.get_ast(bad)
-        except tatsu.exceptions.ParseException:
-            continue
-        except Exception as e:   # noqa
-            raise RuntimeError('PEG shim: %r raised %r instead of a TatSu parse error' % (bad, e))
-        raise RuntimeError('PEG shim accepted malformed expression %r' % bad)
     return len(_SELFTEST)
